@@ -12,6 +12,10 @@
 //	             where k is the history step in which its content last changed (os.Chtimes; content hashes decide
 //	             "changed"), then BackupShard(since) for since = T(j) and T(j)+30min, j = 0..n: the archive must
 //	             contain, byte-identical, every file whose content changed in a step > j.
+//	subsecond    (same clause, sub-second placements) every tracked file F in turn gets the change time
+//	             T = T(step of F) + d, d in {0, 1ns, 500ms, 999999999ns} (os.Chtimes, nanosecond precision, read back
+//	             with os.Stat), and BackupShard(since) runs for since in {T-1s, T-1ms, T-1ns, T, T+1ns, T+1s}: the
+//	             archive must contain a tracked file, byte-identically, iff its change time is after since.
 //	export       ExportShard(start, end) for every range between slot boundaries -> ImportShard into an EMPTY shard:
 //	             the imported shard must read exactly the source points with start <= t <= end (range bounds lie
 //	             between the time slots, so inclusive/exclusive ends do not matter).
@@ -627,6 +631,11 @@ func execute(c *vlib.Ctx, opsList []string, exports [][2]int) (v verdict, err er
 		}
 	}
 
+	// ---- clause 2b: incremental backups with sub-second placements of the change time and of `since`
+	if err := r.subsecond(&v, add); err != nil {
+		return v, err
+	}
+
 	// ---- clause 3: export of a time range -> import into an empty shard
 	ft := r.features()
 	for _, ab := range exports {
@@ -671,6 +680,129 @@ func execute(c *vlib.Ctx, opsList []string, exports [][2]int) (v verdict, err er
 		v.outcomes = append(v.outcomes, fmt.Sprintf("export/%s/%s/points=%d", ft.Long(), part, min(npoints(want), 2)))
 	}
 	return v, nil
+}
+
+// ---------------------------------------------------------------------------------------------------------
+// sub-second placements (clause 2b)
+
+// subOffsets: the change time of the file under test is T = T(step) + offset.
+var subOffsets = []time.Duration{0, time.Nanosecond, 500 * time.Millisecond, 999999999 * time.Nanosecond}
+
+// sinceDeltas: since = T + delta.
+var sinceDeltas = []time.Duration{-time.Second, -time.Millisecond, -time.Nanosecond, 0, time.Nanosecond, time.Second}
+
+func deltaS(d time.Duration) string {
+	switch {
+	case d == 0:
+		return "T"
+	case d > 0:
+		return "T+" + d.String()
+	}
+	return "T-" + (-d).String()
+}
+
+func kindOf(name string) string {
+	if strings.HasSuffix(name, ".tombstone") {
+		return "tombstone"
+	}
+	return "tsm"
+}
+
+// subsecond gives every tracked file F in turn the change time T = stepTime(step of F) + offset (all other files keep
+// the whole-hour time of their step) and takes BackupShard(since) for since = T + delta: the archive must contain a
+// tracked file, byte-identically, iff its change time is after since.
+func (r *run) subsecond(v *verdict, add func(sig, format string, a ...any)) error {
+	var fnames []string
+	for n := range r.files {
+		fnames = append(fnames, n)
+	}
+	sort.Strings(fnames)
+	mtimes := map[string]time.Time{}
+	for _, n := range fnames {
+		mtimes[n] = stepTime(r.files[n].step)
+	}
+	stable := func() (bool, error) {
+		cur, err := scanDir(r.dir)
+		if err != nil {
+			return false, err
+		}
+		return fmt.Sprint(keysOf(cur)) == fmt.Sprint(keysOf(r.files)), nil
+	}
+	for _, target := range fnames {
+		path := filepath.Join(r.dir, target)
+		for _, off := range subOffsets {
+			T := stepTime(r.files[target].step).Add(off)
+			if err := os.Chtimes(path, T, T); err != nil {
+				return err
+			}
+			st, err := os.Stat(path)
+			if err != nil {
+				return err
+			}
+			if !st.ModTime().Equal(T) {
+				// a file system that does not keep nanosecond mtimes: the placement cannot be expressed
+				v.outcomes = append(v.outcomes, "subsecond/file-system-rounds-mtimes(not judged)")
+				continue
+			}
+			mtimes[target] = T
+			for _, dl := range sinceDeltas {
+				since := T.Add(dl)
+				var buf bytes.Buffer
+				berr := r.f.TSDB.BackupShard(r.srcID, since, &buf)
+				if ok, err := stable(); err != nil {
+					return err
+				} else if !ok {
+					v.outcomes = append(v.outcomes, "subsecond/directory-changed-during-backup(not judged)")
+					if err := r.retime(r.nsteps + 1); err != nil {
+						return err
+					}
+					return nil
+				}
+				where := fmt.Sprintf("BackupShard(since = %s) with T = mtime of %s = time of step %d + %dns = %s", deltaS(dl), target, r.files[target].step, int64(off), T.Format(time.RFC3339Nano))
+				if berr != nil {
+					add("subsecond/backup-error/"+r.features().String(), "%s failed: %v", where, berr)
+					continue
+				}
+				ents, terr := readTar(buf.Bytes())
+				if terr != nil {
+					add("subsecond/archive-unreadable/"+r.features().String(), "%s: %v", where, terr)
+					continue
+				}
+				in := map[string]tarEntry{}
+				var names []string
+				for _, e := range ents {
+					in[e.name] = e
+					names = append(names, e.name)
+				}
+				for _, n := range fnames {
+					fi := r.files[n]
+					required := mtimes[n].After(since)
+					same := "other-file"
+					if n == target {
+						same = "file-under-test"
+					}
+					e, ok := in[n]
+					switch {
+					case required && !ok:
+						add("subsecond/missing-file/kind="+kindOf(n)+"/"+same, "%s: %s has mtime %s, which is after since = %s, but is not in the archive %v; shard files %s", where, n, mtimes[n].Format(time.RFC3339Nano), since.Format(time.RFC3339Nano), names, fileList(r.files))
+					case required && e.hash != fi.hash:
+						add("subsecond/file-content-differs/kind="+kindOf(n)+"/"+same, "%s: archive entry %s (%d bytes) differs from the file (%d bytes)", where, n, e.size, fi.size)
+					case !required && ok:
+						add("subsecond/unchanged-file-archived/kind="+kindOf(n)+"/"+same, "%s: %s has mtime %s, which is not after since = %s, but it is in the archive %v of the incremental backup; shard files %s", where, n, mtimes[n].Format(time.RFC3339Nano), since.Format(time.RFC3339Nano), names, fileList(r.files))
+					}
+					if n == target {
+						v.outcomes = append(v.outcomes, fmt.Sprintf("subsecond/offset=%s/since=%s/file-archived=%v", off, deltaS(dl), ok))
+					}
+				}
+			}
+		}
+		back := stepTime(r.files[target].step)
+		if err := os.Chtimes(path, back, back); err != nil {
+			return err
+		}
+		mtimes[target] = back
+	}
+	return nil
 }
 
 func npoints(m map[string][]mini.Pt) int {
@@ -743,11 +875,12 @@ func TestCheck(t *testing.T) {
 	vlib.Main(t, &vlib.Check{
 		ID: "C38", Level: "exploration",
 		Rule: "every history of length 1..3 (quick: 399 histories) resp. 1..4 plus every history of length 5 over {wL,wH,dM,s,c} that starts with a write (thorough: 2800 + 1250 histories) over the 7 operations {wL: write A@slots0,1 + B@slot0; wH: write A@slots2,3 + B@slot3; wA: (over)write A@slots0-3; dM: delete [slot1,slot2] of all series; dB: delete series B; s: snapshot cache->TSM; c: snapshot + full compaction} " +
-			"on a fresh bucket (series m,t=a and m,t=b, float field v, 4 time slots in one shard, value = 100*step+10*slot+series so every write is distinguishable); per history: (1) BackupShard(since=0) -> RestoreShard into an empty shard, reads compared; (2) BackupShard(since) for since = T(j), T(j)+30min, j=0..n+1 with file mtimes set by os.Chtimes to the step of their last content change, archive must contain every later-changed *.tsm/*.tombstone file byte-identically; (3) ExportShard for every one of the 10 ranges between slot boundaries (quick: the 6 ranges all, first half, second half, middle, first slot, last slot) -> ImportShard into an empty shard, reads compared with the source points in the range. " +
+			"on a fresh bucket (series m,t=a and m,t=b, float field v, 4 time slots in one shard, value = 100*step+10*slot+series so every write is distinguishable); per history: (1) BackupShard(since=0) -> RestoreShard into an empty shard, reads compared; (2) BackupShard(since) for since = T(j), T(j)+30min, j=0..n+1 with file mtimes set by os.Chtimes to the step of their last content change, archive must contain every later-changed *.tsm/*.tombstone file byte-identically; (2b, sub-second placements) every tracked file F in turn gets the mtime T = T(step of F) + d for d in {0, 1ns, 500ms, 999999999ns} (os.Chtimes with nanosecond precision, read back with os.Stat; the other files keep their whole-hour step time) and BackupShard(since) runs for since in {T-1s, T-1ms, T-1ns, T, T+1ns, T+1s} (24 backups per file): the archive must contain a tracked file, byte-identically, iff its mtime is after since; (3) ExportShard for every one of the 10 ranges between slot boundaries (quick: the 6 ranges all, first half, second half, middle, first slot, last slot) -> ImportShard into an empty shard, reads compared with the source points in the range. " +
 			"non-trivial = histories that contain a write (a shard exists); distinct by construction.",
 		Assumptions: []string{
 			"the oracle of restore/export is the source shard's own ReadFilter before the backup (statement: 'the same readable points and series'); series without points are not compared; a model of the history is only a diagnostic cross-check (evidence counter source_reads_differing_from_history_model)",
-			"'file changed after t' is decided by content hashes between history steps; mtimes are set explicitly (2001-01-01 + step hours), so the second-granular mtime comparison of the code cannot make the oracle flaky; only 'archive is a superset of the required files' is demanded",
+			"'file changed after t' is decided by content hashes between history steps; mtimes are set explicitly (2001-01-01 + step hours), so the mtime comparison of the code cannot make the oracle flaky; in family (2) only 'archive is a superset of the required files' is demanded",
+				"family (2b) models 'the file changed at T' by setting its mtime to T with nanosecond precision (tmpfs keeps nanosecond mtimes; the value is read back and a placement that the file system rounds is not judged: outcome class file-system-rounds-mtimes). 'changed after since' is mtime > since at full precision, also when both fall into the same wall-clock second. The converse direction (a tracked file with mtime <= since is NOT in the incremental archive) is what makes the backup incremental; it has its own signature subsecond/unchanged-file-archived",
 			"export range bounds lie between the time slots, so the statement's silence on inclusive/exclusive range ends does not matter",
 			"tsi1.DefaultPartitionN is set to 1 (the INFLUXDB_EXP_TSI_PARTITIONS knob) to make the ~12 shard creations per history affordable",
 			"ImportShard schedules a full compaction (background) on the import target; the target is read once right after the import and discarded",
